@@ -163,7 +163,7 @@ def bounds(tier, seed):
 
 
 FLOORS = {'long_bodies': 12, 'hist_sequences': 500, 'legal_ok': 100, 'short_crlf_read': 10, 'chunk_gt_buffer': 10, 'prefix_rejected': 100,
-          'crlf_corruption_rejected': 50, 'corruption_accepted': 10, 'corruption_rejected': 50, 'wsgi_execs': 20}
+          'crlf_corruption_rejected': 50, 'crlf_insertion_rejected': 50, 'corruption_accepted': 10, 'corruption_rejected': 50, 'wsgi_execs': 20}
 
 
 def _src_prefix():
@@ -623,6 +623,19 @@ def _work(spec):
                         c['corruption_accepted'] += 1
                     if 'client_error' in vs:
                         c['corruption_rejected'] += 1
+        # one byte (or a short run of garbage) INSERTED between a chunk's data and its CRLF, or between that CR and LF: the data is then
+        # not followed by CRLF.  (A line feed inserted before the LF leaves a correct CRLF and a damaged next size line: not judged.)
+        for pos in after_data:
+            is_lf = raw[pos:pos + 1] == b'\n'
+            for sb in SUBST + [b';oops', b'\r\r', b' \t']:
+                mut = raw[:pos] + sb + raw[pos:]
+                mode = 'any' if (is_lf and sb == b'\n') else 'must-reject'
+                extra = {'what': 'insert', 'pos': pos, 'byte': sb}
+                other = ref_decode(mut)
+                allowed = [payload] + ([other] if other is not None and other != payload else [])
+                vs = explore_case(res, om, errs, runner, kind, mut, B, mode, payload, fits, extra, horizon, short=n < 10, allowed=allowed)
+                if mode == 'must-reject' and vs == {'client_error'}:
+                    c['crlf_insertion_rejected'] += 1
     res.pop('_memo', None)
     core.add_sample(res, {'kind': kind, 'payload_len': n, 'buffer': B, 'encoding_variants': nvar,
                           'example': encode(payload, next(iter(partitions(n))) if n < 10 else (n,), '%x', EXTS[3],
